@@ -490,6 +490,7 @@ fn main() {
         src.push_str("pub mod wrapped {\n    use serde::{Serialize, Deserialize};\n    #[derive(Serialize, Deserialize)]\n    pub struct Request<T> { pub body: T }\n    #[derive(Serialize, Deserialize)]\n    pub struct NewUser { pub name: String }\n}\n#[tauri::command]\npub fn wrapped_request(request: wrapped::Request<u32>, dry_run: bool) -> u32 { 0 }\n");
         src.push_str("#[derive(Serialize, Deserialize, Clone)]\npub struct Chunk { pub n: u32 }\npub mod bot { #[poise::command(slash_command)]\n    pub fn download() {} }\n#[tauri::command]\npub fn download(url: String, on_chunk: Channel<Chunk>) -> u32 { 0 }\n");
         src.push_str("#[derive(Serialize, Deserialize)]\npub struct UserPoint { pub x: i32 }\n#[tauri::command(rename_all = \"snake_case\")]\npub fn snake_destructured(UserPoint { x }: UserPoint, plain_one: u32) -> u32 { 0 }\n#[tauri::command]\npub fn camel_destructured(UserPoint { x }: UserPoint, plain_one: u32) -> u32 { 0 }\n");
+        src.push_str("#[tauri::command]\npub fn parens(app: (tauri::AppHandle), label: (Option<String>), ch: (Channel<String>), n: (u32)) -> u32 { 0 }\n");
         src.push_str("#[tauri::command]\npub fn ipc_bare(id: u32, ch: ipc::Channel, win: tauri::window::Window, view: tauri::webview::WebviewWindow) -> u32 { 0 }\n#[tauri::command(rename_all = r\"snake_case\")]\npub fn raw_rule_cmd(user_id: u32, on_event: Channel<u32>) -> u32 { 0 }\n");
         src.push_str("#[tauri::command]\npub fn channel_spellings(id: u32, on_a: tauri::ipc::Channel<u32>, on_b: tauri::ipc::Channel, on_c: ipc::Channel<String>) -> u32 { 0 }\n");
         src.push_str("#[tauri::command]\npub fn opt_paths(plain: Option<u32>, std_path: std::option::Option<u32>, core_path: core::option::Option<String>, abs_path: ::std::option::Option<bool>, required: u32) -> u32 { 0 }\n");
@@ -553,6 +554,7 @@ fn main() {
                 ("DownloadParams", "fn download(url: String, on_chunk: Channel<Chunk>) next to mod bot { #[poise::command] fn download() }", vec!["onChunk", "url"]),
                 ("SnakeDestructuredParams", "#[tauri::command(rename_all = \"snake_case\")] fn snake_destructured(UserPoint { x }: UserPoint, plain_one: u32)", vec!["plain_one", "user_point"]),
                 ("CamelDestructuredParams", "fn camel_destructured(UserPoint { x }: UserPoint, plain_one: u32)", vec!["plainOne", "userPoint"]),
+                ("ParensParams", "fn parens(app: (tauri::AppHandle), label: (Option<String>), ch: (Channel<String>), n: (u32))", vec!["ch", "label", "n"]),
                 ("IpcBareParams", "fn ipc_bare(id: u32, ch: ipc::Channel, win: tauri::window::Window, view: tauri::webview::WebviewWindow)", vec!["ch", "id"]),
                 ("RawRuleCmdParams", "#[tauri::command(rename_all = r\"snake_case\")] fn raw_rule_cmd(user_id: u32, on_event: Channel<u32>)", vec!["on_event", "user_id"]),
             ] {
@@ -815,9 +817,13 @@ fn main() {
         enums.push(("RawRuleKind".to_string(), vec!["fast-mode".to_string(), "slow-mode".to_string()]));
         src.push_str("#[derive(Serialize, Deserialize)]\npub struct SelfRef { pub children: Vec<Self>, pub by_name: HashMap<String, Self>, pub self_name: String }\n");
         structs.push(("SelfRef".to_string(), vec![("children".to_string(), false), ("by_name".to_string(), false), ("self_name".to_string(), false)]));
+        src.push_str("#[derive(Serialize)]\npub struct BorrowedOpt<'a> { pub note: &'a Option<String>, pub plain: Option<u32>, pub wrapped: (Option<bool>) }\n");
+        structs.push(("BorrowedOpt".to_string(), vec![("note".to_string(), false), ("plain".to_string(), false), ("wrapped".to_string(), false)]));
         src.push_str("#[derive(Serialize, Deserialize)]\npub struct CfgAlt {\n    #[cfg(unix)]\n    pub mode: u32,\n    #[cfg(not(unix))]\n    pub mode: String,\n    pub other: u32,\n}\n");
         structs.push(("CfgAlt".to_string(), vec![("mode".to_string(), false), ("other".to_string(), false)]));
         cmd_params.push("rr: RawRule, sr: SplitRule, rrk: RawRuleKind, selfref: SelfRef, cfgalt: CfgAlt".to_string());
+        // (a Serialize-only struct with a lifetime is reached through an event, not a parameter)
+        src.push_str("pub fn borrowed(app: &tauri::AppHandle, b: BorrowedOpt<'_>) { use tauri::Emitter; app.emit(\"borrowed\", b).ok(); }\n");
         // serde attributes given through cfg_attr (the usual way of an optional serde feature) count like plain ones
         src.push_str("#[cfg_attr(feature = \"serde\", derive(Serialize, Deserialize), serde(rename_all = \"camelCase\"))]\npub struct ViaCfgAttr {\n    pub first_name: u32,\n    #[cfg_attr(feature = \"serde\", serde(rename = \"why\"))]\n    pub y_pos: u32,\n    #[cfg_attr(all(feature = \"serde\", not(test)), serde(skip))]\n    pub cache_slot: u32,\n    #[cfg_attr(feature = \"lints\", allow(dead_code))]\n    pub z_pos: u32,\n    #[cfg_attr(feature = \"serde\", doc = \"serde(skip)\")]\n    pub documented_one: u32,\n}\n");
         structs.push(("ViaCfgAttr".to_string(), vec![("firstName".to_string(), false), ("why".to_string(), false), ("zPos".to_string(), false), ("documentedOne".to_string(), false)]));
@@ -955,6 +961,7 @@ fn main() {
             ("s-before", ""), ("s-inner-typed", ""), ("s-after-block", ""), ("s-if-let-bound", ""), ("s-after-if-let", ""), ("s-for-bound", ""), ("s-closure-bound", ""), ("s-rebound-untyped", ""), ("s-match-bound", ""),
             ("d-rest-first", ""), ("d-rest-last", ""), ("d-rest-tail", ""), ("w-shadowed", ""), ("w-shadowed-param", ""), ("w-rebound-in-block", ""),
             ("g-impl-param", ""), ("g-impl-vec", ""),
+            ("y-nested-closure", ""), ("y-nested-if", ""), ("y-nested-async", ""), ("y-none-turbofish", ""), ("y-option-some", ""), ("y-result-ok", ""), ("y-default-default", ""), ("y-closure-typed", ""),
             ("y-slice-param", ""), ("y-array-param", ""), ("y-bytes-param", ""), ("y-vec-of-arrays", ""), ("y-neg-int", ""), ("y-neg-float", ""), ("y-suffixed", ""), ("y-raw-struct", ""), ("y-self-struct", ""),
             ("y-local-struct", ""), ("y-local-in-method", ""), ("y-fn-call-result", ""), ("y-fn-call-vec", ""), ("y-ctor-new", ""),
             ("m-to-owned-untyped", ""), ("m-to-owned-if-let", ""), ("m-to-owned-for", ""), ("m-to-owned-typed", ""), ("m-to-string-untyped", ""), ("m-as-ref-untyped", ""),
@@ -1014,6 +1021,7 @@ fn main() {
             pub fn values(app: &tauri::AppHandle) { app.emit(\"v-unit-variant\", JobState::Running).ok(); app.emit(\"v-struct-variant\", JobState::Failed { code: 1 }).ok(); app.emit(\"v-tuple-variant\", JobState::Done(3)).ok(); app.emit(\"v-qualified-variant\", crate::JobState::Running).ok(); app.emit(\"v-assoc-const\", JobState::IDLE).ok(); app.emit(\"v-ctor-call\", JobState::fresh()).ok(); app.emit(\"v-const\", MAX_RETRIES).ok(); app.emit(\"v-tuple-literal\", (1u32, \"x\")).ok(); app.emit(\"v-unit-struct-path\", crate::Beat).ok();\n\
                 let f = JobState::Failed { code: 2 }; app.emit(\"v-let-struct-variant\", f).ok(); let d = JobState::Done(1); app.emit(\"v-let-tuple-variant\", d).ok(); let v = Vec::new(); app.emit(\"v-let-vec-new\", v).ok(); let m = std::collections::HashMap::new(); app.emit(\"v-let-map-new\", m).ok(); let s = String::new(); app.emit(\"v-let-string-new\", s).ok(); let q = crate::inner::load(); app.emit(\"v-let-fn-call\", q).ok(); }\n\
             #[derive(Serialize, Deserialize, Clone)]\npub struct RawSample { pub raw: u32 }\n#[derive(Serialize, Deserialize, Clone)]\npub struct SampleView { pub shown: String, pub unit: SampleUnit }\n#[derive(Serialize, Deserialize, Clone)]\npub enum SampleUnit { Metric }\nimpl SampleView { pub fn from(_r: RawSample) -> Self { todo!() } }\n\
+            pub fn nested_decls(app: &tauri::AppHandle, deep: bool, players: Vec<Player>) { let window = app.clone(); let run = move || { #[derive(Serialize, Clone)] struct InClosure { n: u32 } window.emit(\"y-nested-closure\", InClosure { n: 1 }).ok(); }; run(); if deep { #[derive(Serialize, Clone)] struct InIf { n: u32 } app.emit(\"y-nested-if\", InIf { n: 2 }).ok(); } let webview = app.clone(); let _task = async move { #[derive(Serialize, Clone)] struct InAsync { n: u32 } webview.emit(\"y-nested-async\", InAsync { n: 3 }).ok(); }; app.emit(\"y-none-turbofish\", None::<Player>).ok(); app.emit(\"y-option-some\", Option::Some(1u32)).ok(); app.emit(\"y-result-ok\", Result::<u32, String>::Ok(3)).ok(); let fresh = Default::default(); app.emit(\"y-default-default\", fresh).ok(); players.into_iter().for_each(|p: Player| { app.emit(\"y-closure-typed\", p).ok(); }); }\n\
             pub struct Bus<T> { pub last: Option<T> }\nimpl<T: Serialize + Clone> Bus<T> { pub fn publish(&self, app: &tauri::AppHandle, item: T, many: Vec<T>) { app.emit(\"g-impl-param\", item).ok(); app.emit(\"g-impl-vec\", many).ok(); } }\n\
             pub fn array_payloads(app: &tauri::AppHandle, players: &[Player], pair: [Player; 2], bytes: &[u8]) { app.emit(\"y-slice-param\", players).ok(); app.emit(\"y-array-param\", pair).ok(); app.emit(\"y-bytes-param\", bytes).ok(); let grid: Vec<[u8; 3]> = vec![]; app.emit(\"y-vec-of-arrays\", grid).ok(); app.emit(\"y-neg-int\", -1).ok(); app.emit(\"y-neg-float\", -0.5).ok(); app.emit(\"y-suffixed\", 5u64).ok(); }\n\
             #[derive(Serialize, Deserialize, Clone)]\npub struct r#Move { pub dx: i32 }\n\
@@ -1053,7 +1061,7 @@ fn main() {
         for mode in ["none", "zod"] {
             let files = generate(&dir, &root.join(format!("emits/out_{}", mode)), mode);
             rep.case("generated_files_are_lexically_wellformed", &format!("project=emits mode={}", mode), &|| lexical_wellformed(files.as_ref().map_err(|e| e.clone())?));
-            rep.case("type_references_resolve", &format!("project=emits mode={}", mode), &|| references_resolve(files.as_ref().map_err(|e| e.clone())?, &["Player", "Holder", "ScanReport", "ReportLine", "Ticket", "SyncStarted", "SyncFinished", "SyncReport", "TagOnlyInSets", "Move", "LocalProgress", "LocalStage", "MethodLocal"]));
+            rep.case("type_references_resolve", &format!("project=emits mode={}", mode), &|| references_resolve(files.as_ref().map_err(|e| e.clone())?, &["Player", "Holder", "ScanReport", "ReportLine", "Ticket", "SyncStarted", "SyncFinished", "SyncReport", "TagOnlyInSets", "Move", "LocalProgress", "LocalStage", "MethodLocal", "InClosure", "InIf", "InAsync"]));
             rep.case("mentioned_project_types_are_declared", &format!("project=emits mode={}", mode), &|| {
                 let files = files.as_ref().map_err(|e| e.clone())?;
                 let exp = exports_of(files.get("types.ts").ok_or("no types.ts")?);
@@ -1080,6 +1088,7 @@ fn main() {
                     ("s-before", "types.Player"), ("s-inner-typed", "types.ScanReport"), ("s-after-block", "types.Player"), ("s-if-let-bound", "unknown || number"), ("s-after-if-let", "types.Player"), ("s-for-bound", "unknown || number"), ("s-closure-bound", "unknown || number"), ("s-rebound-untyped", "unknown || number"), ("s-match-bound", "unknown || number"),
                     ("w-shadowed", "types.SampleView"), ("w-shadowed-param", "types.SampleView"), ("w-rebound-in-block", "string"),
                     ("g-impl-param", "unknown"), ("g-impl-vec", "unknown"),
+                    ("y-nested-closure", "types.InClosure"), ("y-nested-if", "types.InIf"), ("y-nested-async", "types.InAsync"), ("y-none-turbofish", "unknown || types.Player | null"), ("y-option-some", "unknown || number | null"), ("y-result-ok", "unknown || number"), ("y-default-default", "unknown"), ("y-closure-typed", "types.Player"),
                     ("y-slice-param", "types.Player[]"), ("y-array-param", "types.Player[]"), ("y-bytes-param", "number[]"), ("y-vec-of-arrays", "number[][]"), ("y-neg-int", "number"), ("y-neg-float", "number"), ("y-suffixed", "number"),
                     ("y-raw-struct", "types.Move"), ("y-self-struct", "unknown || types.Move"), ("y-local-struct", "types.LocalProgress"), ("y-local-in-method", "types.MethodLocal"),
                     ("y-fn-call-result", "unknown || number"), ("y-fn-call-vec", "unknown || types.Move[]"), ("y-ctor-new", "unknown || types.Move"),
@@ -2063,11 +2072,13 @@ fn main() {
     }
     // ---- C11: email / url only where they are declared as validators; validate through cfg_attr counts
     {
-        let src = format!("{}#[derive(Serialize, Deserialize, validator::Validate)]\npub struct Signup {{\n    #[validate(must_match(other = email))]\n    pub confirm: String,\n    #[validate(custom(function = crate::rules::url), length(min = 1))]\n    pub site: String,\n    #[validate(email(message = \"bad\"), url)]\n    pub both: String,\n    #[validate(length(min = 2), email)]\n    pub mail: String,\n    #[cfg_attr(feature = \"validation\", validate(length(min = 3, max = 20), email))]\n    pub gated: String,\n    #[cfg_attr(all(feature = \"validation\", not(test)), validate(range(min = 18, max = 120)))]\n    pub age: u32,\n    pub email: String,\n    pub url: String,\n}}\n#[tauri::command]\npub fn signup(s: Signup) -> u32 {{ 0 }}\n", HDR);
+        let src = format!("{}#[derive(Serialize, Deserialize, validator::Validate)]\npub struct Signup {{\n    #[validate(must_match(other = email))]\n    pub confirm: String,\n    #[validate(custom(function = crate::rules::url), length(min = 1))]\n    pub site: String,\n    #[validate(email(message = \"bad\"), url)]\n    pub both: String,\n    #[validate(length(min = 2), email)]\n    pub mail: String,\n    #[cfg_attr(feature = \"validation\", validate(length(min = 3, max = 20), email))]\n    pub gated: String,\n    #[cfg_attr(all(feature = \"validation\", not(test)), validate(range(min = 18, max = 120)))]\n    pub age: u32,\n    #[validate(length(min = 1, max = 5))]\n    #[validate(custom(function = checks::length::not_blank))]\n    pub name: String,\n    #[validate(custom(function = crate::checks::range::even), range(min = 2, max = 8))]\n    pub even: u32,\n    pub email: String,\n    pub url: String,\n}}\n#[tauri::command]\npub fn signup(s: Signup) -> u32 {{ 0 }}\n", HDR);
         let dir = root.join("validators_items/src");
         write_files(&dir, &[("lib.rs".to_string(), src)]);
         let files = generate(&dir, &root.join("validators_items/out_zod"), "zod");
-        let wants: [(&str, &str, &[&str], &[&str]); 8] = [
+        let wants: [(&str, &str, &[&str], &[&str]); 10] = [
+            ("name", "#[validate(length(min = 1, max = 5))] #[validate(custom(function = checks::length::not_blank))] pub name: String", &[".min(1", ".max(5"], &[]),
+            ("even", "#[validate(custom(function = crate::checks::range::even), range(min = 2, max = 8))] pub even: u32", &[".min(2", ".max(8"], &[]),
             ("confirm", "#[validate(must_match(other = email))] pub confirm: String", &[], &[".email(", ".url("]),
             ("site", "#[validate(custom(function = crate::rules::url), length(min = 1))] pub site: String", &[".min(1"], &[".email(", ".url("]),
             ("both", "#[validate(email(message = \"bad\"), url)] pub both: String", &[".email(", ".url("], &[]),
@@ -2084,6 +2095,22 @@ fn main() {
                 for m in must { if !sch.contains(m) { return Err(format!("schema of `{}` is `{}`: the declared `{}..)` is missing", key, sch, m)); } }
                 for m in must_not { if sch.contains(m) { return Err(format!("schema of `{}` is `{}`: `{}..)` is not declared for this field", key, sch, m)); } }
                 Ok(sch)
+            });
+        }
+    }
+    // ---- C07: a derive of another crate written with its path (rkyv::Serialize) does not make a serde type
+    {
+        let src = format!("{}#[derive(rkyv::Archive, rkyv::Serialize, rkyv::Deserialize)]\npub struct Digest {{ pub bytes: [u8; 4] }}\n#[derive(serde::Serialize, serde::Deserialize)]\npub struct Plain {{ pub n: u32 }}\n#[tauri::command]\npub fn digest(p: Plain) -> Digest {{ todo!() }}\n", HDR);
+        let dir = root.join("foreign_derive/src");
+        write_files(&dir, &[("lib.rs".to_string(), src)]);
+        for mode in ["none", "zod"] {
+            let files = generate(&dir, &root.join(format!("foreign_derive/out_{}", mode)), mode);
+            rep.case("non_serde_types_not_emitted", &format!("#[derive(rkyv::Archive, rkyv::Serialize, rkyv::Deserialize)] struct Digest next to #[derive(serde::Serialize, serde::Deserialize)] struct Plain mode={}", mode), &|| {
+                let files = files.as_ref().map_err(|e| e.clone())?;
+                let exp = exports_of(files.get("types.ts").ok_or("no types.ts")?);
+                if exp.contains("Digest") || exp.contains("DigestSchema") { return Err("types.ts declares Digest, which derives rkyv's Serialize / Deserialize, not serde's".into()); }
+                if !exp.contains("Plain") && !exp.contains("PlainSchema") { return Err("types.ts does not declare Plain, which derives serde::Serialize and serde::Deserialize".into()); }
+                Ok("ok".into())
             });
         }
     }
